@@ -665,4 +665,243 @@ theorem addEndpoint_inv2 {pt pt' : PTree} {done : List Endpoint} {e : Endpoint}
             by_cases hlt : (trunc x.parts).length < x.parts.length <;> simp [hlt]
 
 
+theorem crossMatch_false {es : List Endpoint} (h : crossMatch es = false) :
+    ∀ e1 ∈ es, ∀ e2 ∈ es, e1.parts ≠ e2.parts → matchesLax (trunc e1.parts) e2.parts = false := by
+  intro e1 h1 e2 h2 hne
+  unfold crossMatch at h
+  rw [List.any_eq_false] at h
+  have := h e1 h1
+  simp only [Bool.not_eq_true] at this
+  rw [List.any_eq_false] at this
+  have := this e2 h2
+  simpa [hne] using this
+
+theorem cfgBoundaryMix_false {es : List Endpoint} (h : cfgBoundaryMix es = false) :
+    ∀ e1 ∈ es, ∀ e2 ∈ es, flagsOK e1.parts e2.parts = true := by
+  intro e1 h1 e2 h2
+  unfold cfgBoundaryMix at h
+  rw [List.any_eq_false] at h
+  have := h e2 h2
+  simp only [Bool.not_eq_true] at this
+  unfold boundaryMix at this
+  rw [List.any_eq_false] at this
+  have := this e1 h1
+  simpa using this
+
+theorem dupKeys_cons {e : Endpoint} {rest : List Endpoint} (h : dupKeys (e :: rest) = false) :
+    (∀ e2 ∈ rest, ¬ (e2.method = e.method ∧ e2.parts = e.parts)) ∧ dupKeys rest = false := by
+  simp only [dupKeys, Bool.or_eq_false_iff] at h
+  refine ⟨?_, h.2⟩
+  intro e2 he2 hk
+  have := h.1
+  rw [List.any_eq_false] at this
+  have := this e2 he2
+  simp [hk.1, hk.2] at this
+
+theorem buildFrom_inv2 (all : List Endpoint) (es : List Endpoint) : ∀ (pt pt' : PTree) (done : List Endpoint),
+    (∀ x ∈ done, x ∈ all) → (∀ x ∈ es, x ∈ all) →
+    crossMatch all = false → cfgBoundaryMix all = false →
+    (∀ e ∈ es, ∀ e' ∈ done, ¬ (e'.method = e.method ∧ e'.parts = e.parts)) → dupKeys es = false →
+    Inv pt done → Inv2 pt done → buildFrom pt es = .ok pt' →
+    Inv pt' (done ++ es) ∧ Inv2 pt' (done ++ es) := by
+  induction es with
+  | nil =>
+    intro pt pt' done _ _ _ _ _ _ hinv h2 h
+    simp [buildFrom] at h; subst h; simpa using ⟨hinv, h2⟩
+  | cons e rest ih =>
+    intro pt pt' done hdone hes hcm hfl hnd hdk hinv h2 h
+    unfold buildFrom at h
+    split at h
+    · simp at h
+    · rename_i pt1 hadd
+      have he : e ∈ all := hes e (by simp)
+      have hf : Fresh2 done e := by
+        refine ⟨?_, hnd e (by simp), ?_⟩
+        · intro e' he' hd
+          exact ⟨crossMatch_false hcm e' (hdone e' he') e he hd,
+                 crossMatch_false hcm e he e' (hdone e' he') (Ne.symm hd)⟩
+        · intro e1 h1 e2 h2'
+          exact cfgBoundaryMix_false hfl e1 (hdone e1 h1) e2 (hdone e2 h2')
+      have hfresh : Fresh done e := by
+        intro e' he' hd
+        have := (hf.cross e' he' hd).1
+        cases hm : matchesLax e'.parts e.parts with
+        | false => rfl
+        | true =>
+          rw [trunc_of_wildLast _ (wildLast_of_matchesLax _ _ hm), hm] at this
+          exact this
+      have hinv1 := addEndpoint_inv hinv hfresh hadd
+      have h21 := addEndpoint_inv2 hinv h2 hf hadd
+      obtain ⟨hd1, hd2⟩ := dupKeys_cons hdk
+      have := ih pt1 pt' (done ++ [e]) ?_ ?_ hcm hfl ?_ hd2 hinv1 h21 h
+      · simpa using this
+      · intro x hx
+        rcases List.mem_append.mp hx with hx | hx
+        · exact hdone x hx
+        · simp at hx; subst hx; exact he
+      · intro x hx; exact hes x (by simp [hx])
+      · intro x hx e' he'
+        rcases List.mem_append.mp he' with he' | he'
+        · exact hnd x (by simp [hx]) e' he'
+        · simp at he'; subst he'
+          intro hk
+          exact hd1 x hx ⟨hk.1.symm, hk.2.symm⟩
+
+theorem build_inv2 {es : List Endpoint} {pt : PTree}
+    (hcm : crossMatch es = false) (hfl : cfgBoundaryMix es = false) (hdk : dupKeys es = false)
+    (h : build es = .ok pt) : Inv pt es ∧ Inv2 pt es := by
+  have := buildFrom_inv2 es es .empty pt [] (by simp) (fun x hx => hx) hcm hfl (by simp) hdk
+    inv_empty inv2_empty h
+  simpa using this
+
+
+theorem dupKeys_false_iff (es : List Endpoint) :
+    dupKeys es = false ↔ es.Pairwise (fun a b => ¬ (a.method = b.method ∧ a.parts = b.parts)) := by
+  induction es with
+  | nil => simp [dupKeys]
+  | cons e rest ih =>
+    rw [List.pairwise_cons, ← ih]
+    constructor
+    · intro h
+      obtain ⟨h1, h2⟩ := dupKeys_cons h
+      exact ⟨fun b hb hk => h1 b hb ⟨hk.1.symm, hk.2.symm⟩, h2⟩
+    · intro ⟨h1, h2⟩
+      simp only [dupKeys, Bool.or_eq_false_iff]
+      refine ⟨?_, h2⟩
+      rw [List.any_eq_false]
+      intro b hb
+      have := h1 b hb
+      simp only [Bool.and_eq_true, beq_iff_eq, not_and]
+      intro hm hp
+      exact this ⟨hm.symm, hp.symm⟩
+
+theorem dupKeys_perm {es es' : List Endpoint} (hp : es.Perm es') (h : dupKeys es = false) :
+    dupKeys es' = false := by
+  rw [dupKeys_false_iff] at h ⊢
+  exact (hp.pairwise_iff (fun {x y} hxy hk => hxy ⟨hk.1.symm, hk.2.symm⟩)).mp h
+
+theorem crossMatch_perm {es es' : List Endpoint} (hp : es.Perm es') (h : crossMatch es = false) :
+    crossMatch es' = false := by
+  have := crossMatch_false h
+  unfold crossMatch
+  rw [List.any_eq_false]
+  intro e1 h1
+  simp only [Bool.not_eq_true]
+  rw [List.any_eq_false]
+  intro e2 h2
+  by_cases hd : e1.parts = e2.parts
+  · simp [hd]
+  · simp [this e1 (hp.mem_iff.mpr h1) e2 (hp.mem_iff.mpr h2) hd]
+
+theorem cfgBoundaryMix_perm {es es' : List Endpoint} (hp : es.Perm es') (h : cfgBoundaryMix es = false) :
+    cfgBoundaryMix es' = false := by
+  have := cfgBoundaryMix_false h
+  unfold cfgBoundaryMix
+  rw [List.any_eq_false]
+  intro e2 h2
+  simp only [Bool.not_eq_true]
+  unfold boundaryMix
+  rw [List.any_eq_false]
+  intro e1 h1
+  simp [this e1 (hp.mem_iff.mpr h1) e2 (hp.mem_iff.mpr h2)]
+
+/-- The policy an index stands for, per method. -/
+def polAt (store : List PMap) (ov : Option Nat) (m : String) : Option Policy :=
+  match ov with
+  | some i => PMap.find? (store.getD i []) m
+  | none => none
+
+/-- Values of two builds of the same declarations correspond when they stand for the same policies. -/
+def ValRel (pt pt' : PTree) (ov ov' : Option Nat) : Prop :=
+  (ov = none ↔ ov' = none) ∧ ∀ m, polAt pt.store ov m = polAt pt'.store ov' m
+
+theorem policy_eta (p : Policy) : p = ⟨p.src⟩ := by cases p; rfl
+
+/-- A binding of one build is a binding of the other (same pattern, any order). -/
+theorem pol_transfer {pt pt' : PTree} {es es' : List Endpoint}
+    (hinv : Inv pt es) (_hinv' : Inv pt' es') (h2' : Inv2 pt' es')
+    (hsub : ∀ x ∈ es, x ∈ es') {q : List Part} {i i' : Nat}
+    (hq : (q, some i) ∈ pt.tree) (hq' : (q, some i') ∈ pt'.tree) {m : String} {pol : Policy}
+    (hf : PMap.find? (pt.store.getD i []) m = some pol) :
+    PMap.find? (pt'.store.getD i' []) m = some pol := by
+  obtain ⟨hp, hsrc, hmeth⟩ := hinv.src q i hq m pol (PMap.mem_of_find? hf)
+  have hwl : wildLast pol.src.parts = true := by rw [hp]; exact hinv.wl _ hq
+  obtain ⟨k', hk', hfind'⟩ := h2'.bind pol.src (hsub _ hsrc) hwl
+  rw [hp] at hk'
+  have := h2'.coh _ _ _ hk' hq'
+  simp only [Option.some.injEq] at this
+  subst this
+  rw [hmeth] at hfind'
+  rw [hfind', ← policy_eta]
+
+theorem valRel_of {pt pt' : PTree} {es es' : List Endpoint}
+    (hinv : Inv pt es) (h2 : Inv2 pt es) (hinv' : Inv pt' es') (h2' : Inv2 pt' es')
+    (hsub : ∀ x ∈ es, x ∈ es') (hsub' : ∀ x ∈ es', x ∈ es)
+    {q : List Part} {ov ov' : Option Nat} (hq : (q, ov) ∈ pt.tree) (hq' : (q, ov') ∈ pt'.tree)
+    (hnone : ov = none ↔ ov' = none) : ValRel pt pt' ov ov' := by
+  refine ⟨hnone, ?_⟩
+  intro m
+  cases ov with
+  | none => have := hnone.mp rfl; subst this; rfl
+  | some i =>
+    cases ov' with
+    | none => have := hnone.mpr rfl; simp at this
+    | some i' =>
+      simp only [polAt]
+      cases hf : PMap.find? (pt.store.getD i []) m with
+      | some pol => exact (pol_transfer hinv hinv' h2' hsub hq hq' hf).symm
+      | none =>
+        cases hf' : PMap.find? (pt'.store.getD i' []) m with
+        | none => rfl
+        | some pol' =>
+          have := pol_transfer hinv' hinv h2 hsub' hq' hq hf'
+          rw [hf] at this
+          simp at this
+
+theorem tree_sim {pt pt' : PTree} {es es' : List Endpoint}
+    (hinv : Inv pt es) (h2 : Inv2 pt es) (hinv' : Inv pt' es') (h2' : Inv2 pt' es')
+    (hsub : ∀ x ∈ es, x ∈ es') (hsub' : ∀ x ∈ es', x ∈ es) :
+    Sim (ValRel pt pt') pt.tree pt'.tree := by
+  constructor
+  · intro q ov hq
+    obtain ⟨e, he, hqe, hiff⟩ := hinv.dom q ov hq
+    obtain ⟨ov', hov', hiff'⟩ := h2'.covT e (hsub e he)
+    rw [← hqe] at hov'
+    exact ⟨ov', hov', valRel_of hinv h2 hinv' h2' hsub hsub' hq hov' (hiff.trans hiff'.symm)⟩
+  · intro q ov' hq'
+    obtain ⟨e, he, hqe, hiff'⟩ := hinv'.dom q ov' hq'
+    obtain ⟨ov, hov, hiff⟩ := h2.covT e (hsub' e he)
+    rw [← hqe] at hov
+    exact ⟨ov, hov, valRel_of hinv h2 hinv' h2' hsub hsub' hov hq' (hiff.trans hiff'.symm)⟩
+
+/-- Two builds of the same declarations (any orders) select the same policy, normalised URL and parameters. -/
+theorem select_perm {pt pt' : PTree} {es es' : List Endpoint}
+    (hinv : Inv pt es) (h2 : Inv2 pt es) (hinv' : Inv pt' es') (h2' : Inv2 pt' es')
+    (hsub : ∀ x ∈ es, x ∈ es') (hsub' : ∀ x ∈ es', x ∈ es)
+    (hfl : ∀ e1 ∈ es, ∀ e2 ∈ es, flagsOK e1.parts e2.parts = true) (m : String) (us : List Part) :
+    select pt m us = select pt' m us := by
+  have hsim := tree_sim hinv h2 hinv' h2' hsub hsub'
+  have hR0 : ValRel pt pt' none none := ⟨Iff.rfl, fun _ => rfl⟩
+  obtain ⟨_, hval, hpar, hnorm⟩ := lookGo_sim (R := ValRel pt pt') hR0 (fun ov ov' h => h.1) us
+    pt.tree pt'.tree none none [] [] hsim (tree_partsOK hinv hfl) hinv.wl (rcoh_of_coh h2) (rcoh_of_coh h2')
+    (.inl ⟨rfl, rfl⟩)
+  have hl : lookGo pt.tree none [] [] us = lookupParts pt.tree us := rfl
+  have hl' : lookGo pt'.tree none [] [] us = lookupParts pt'.tree us := rfl
+  rw [hl, hl'] at hval hpar hnorm
+  cases hv : (lookupParts pt.tree us).value with
+  | none =>
+    have hv' : (lookupParts pt'.tree us).value = none := by
+      rw [hv] at hval; exact hval.1.mp rfl
+    rw [select_none hv, select_none hv', hpar, hnorm]
+  | some i =>
+    cases hv' : (lookupParts pt'.tree us).value with
+    | none => rw [hv, hv'] at hval; have := hval.1.mpr rfl; simp at this
+    | some i' =>
+      rw [select_some hv, select_some hv', hpar, hnorm]
+      rw [hv, hv'] at hval
+      have := hval.2 m
+      simp only [polAt] at this
+      rw [this]
+
+
 end LunarVerif.C13
